@@ -2,7 +2,7 @@
    Owning types modelled: static_vector (non-trivial storage) and inplace_vector, for element types
    with (fl = true) and without (fl = false) move operations, every capacity, every history of the
    operations of C03.Model.op on two objects. *)
-From Tetl Require Import Lib.Base C03.Trace C03.Model C03.Spec C03.ProofsTrace C03.ProofsRun C03.ProofsHist C03.ProofsVecSelf C03.ProofsVecDomain.
+From Tetl Require Import Lib.Base C03.Trace C03.Model C03.Spec C03.ProofsTrace C03.ProofsRun C03.ProofsHist C03.ProofsVecSelf C03.ProofsVecDomain C03.ProofsMeetsSpec.
 
 (** * the automaton *)
 (* a well-formed trace that leaves nothing alive: the history of EVERY location is
@@ -78,6 +78,15 @@ Theorem C03_vec_domain : forall (fl : bool) (cap : nat) (iv : bool) (ops : list 
   history_completed fl cap iv ops = true.
 Proof. exact vec_domain. Qed.
 Print Assumptions C03_vec_domain.
+
+(* model = specification: inside the specification's domain the verdict and the self-operation
+   identities the model prints are the ones Spec.spec_verdict expects (size-determined operations) *)
+Theorem C03_vec_meets_spec : forall (fl : bool) (cap : nat) (iv : bool) (ops : list op),
+  forallb (size_op iv) ops = true ->
+  forall v, spec_verdict fl cap ops = Some v ->
+  (snd (run_case fl cap iv ops), self_checks fl cap iv (0, 0) [] ops) = (fst v, snd v).
+Proof. exact vec_meets_spec. Qed.
+Print Assumptions C03_vec_meets_spec.
 
 (* the hypothesis is satisfiable by a history that copies, moves, swaps, inserts and erases *)
 Example C03_nonvacuous :
